@@ -31,7 +31,11 @@ func VH_C07_decrypt_cert() {
 	sp := &SAMLServiceProvider{Clock: vClock("sp"), ValidateEncryptionCert: vFlag("validateEncryptionCert")}
 	cert := vCertBytes("spcert")
 	listEmpty := false
-	switch vChoice("keystore.kind", 5) {
+	switch vChoice("keystore.kind", 6) {
+	case 5:
+		// a tls.Certificate whose Leaf field is a stale parse of another (valid) certificate: Certificate[0] is the
+		// certificate the SP publishes and the one that counts
+		sp.SPKeyStore = dsig.TLSCertKeyStore(tls.Certificate{Certificate: [][]byte{cert}, PrivateKey: vRSAKey("sp"), Leaf: vStoreCert(9)})
 	case 3:
 		// the setter API (takes precedence over the field)
 		sp.SetSPKeyStore(&KeyStore{Signer: vRSAKey("sp"), Cert: cert})
@@ -98,14 +102,22 @@ func VH_C11_rekey() {
 	sp := &SAMLServiceProvider{Clock: vClock("sp")}
 	keyA, keyB := vRSAKey("A"), vRSAKey("B")
 	certA, certB := vBytes("certA"), vBytes("certB")
-	sp.SPKeyStore = &vhKS{key: keyA, cert: certA}
+	bySetter := vFlag("initial-by-setter")
+	if bySetter {
+		sp.SetSPKeyStore(&KeyStore{Signer: keyA, Cert: certA})
+	} else {
+		sp.SPKeyStore = &vhKS{key: keyA, cert: certA}
+	}
+	vAssume(len(certA) > 0 && len(certB) > 0)
+	sp.Metadata() // published once under the first key
 	dc1, err1 := sp.getDecryptCert()
 	vDebugErr("first", err1)
 	if err1 != nil || dc1 == nil {
 		return
 	}
 	vAssert("C11,C07.first-use-takes-the-configured-key", dc1.PrivateKey == crypto.PrivateKey(keyA))
-	if vFlag("rekey-by-setter") {
+	// (a key installed with the setter keeps precedence over the field by design: it is replaced with the setter)
+	if bySetter || vFlag("rekey-by-setter") {
 		sp.SetSPKeyStore(&KeyStore{Signer: keyB, Cert: certB})
 	} else {
 		sp.SPKeyStore = &vhKS{key: keyB, cert: certB}
@@ -118,4 +130,15 @@ func VH_C11_rekey() {
 	if ok {
 		vAssert("C11,C07,C17.with-its-own-certificate", vBytesEq(dc2.Certificate[0], certB))
 	}
+	// and the metadata published from now on names the new key for encryption and (no dedicated signing key) signing
+	md, merr := sp.Metadata()
+	if merr == nil && md != nil {
+		if kd, _ := vhFindKeyDescriptor(md, "encryption"); kd != nil && len(kd.KeyInfo.X509Data.X509Certificates) == 1 {
+			vAssert("C11,C19,C17.metadata-after-rekeying-publishes-the-new-encryption-certificate", kd.KeyInfo.X509Data.X509Certificates[0].Data == vB64(certB))
+		}
+		if kd, _ := vhFindKeyDescriptor(md, "signing"); kd != nil && len(kd.KeyInfo.X509Data.X509Certificates) == 1 {
+			vAssert("C13,C19,C17.metadata-after-rekeying-publishes-the-new-signing-certificate", kd.KeyInfo.X509Data.X509Certificates[0].Data == vB64(certB))
+		}
+	}
 }
+
